@@ -47,6 +47,9 @@ class Frame:
         self.returns = []
 
 
+TRANSPARENT = {'utils._reshape'}
+
+
 class Site:
     __slots__ = ('rule', 'where', 'mod', 'node', 'status', 'detail', 'facts',
                  'construct', 'stack')
@@ -354,7 +357,14 @@ class Interp:
         _poly.ORDER_FACTS[:] = list(env.get('$order', ()))
         ein = self.opts.get('expand_in')
         if ein is not None:
-            _poly.EXPAND[0] = self.where() in ein
+            w = self.where()
+            if w in TRANSPARENT:
+                # thin wrappers inherit the setting of their caller
+                for fr in reversed(self.stack):
+                    if fr.fn is not None and fr.fn.qualname not in TRANSPARENT:
+                        w = fr.fn.qualname
+                        break
+            _poly.EXPAND[0] = w in ein
         return m(st, env)
 
     def add_order(self, env, test, pol):
@@ -960,7 +970,8 @@ class Interp:
             return INT()
         if arr.dt == 'b':
             return BOOL()
-        return FLOAT(taint=arr.taint, lg=arr.lg, unit=arr.unit, deg=arr.deg)
+        return FLOAT(taint=arr.taint, lg=arr.lg, unit=arr.unit, deg=arr.deg,
+                     cnt=arr.cnt)
 
     # ------------------------------------------------------------------
     # subscripts
@@ -1014,7 +1025,9 @@ class Interp:
                                                         v.lg == base.lg))
                                else None, nonneg=False, normed=False,
                                delta=None,
-                               src=None if base.src == 'ones' else base.src)
+                               src=None if base.src == 'ones' else base.src,
+                               note=None if base.note == 'input' else
+                               base.note)
                 if base.note == 'zeros' and v.deg is not None and \
                         (base.deg in (None, {}) or base.deg == v.deg):
                     nb.deg = v.deg
